@@ -89,13 +89,17 @@ PROPS = {
         lean_targets=["BB.Props.C13"],
         theorems=["BB.Props.C13.inv_step", "BB.Props.C13.lossless_ordered", "BB.Props.C13.get_fresh_is_head",
                   "BB.Props.C13.get_replays_in_order", "BB.Props.C13.rollback_marks_all", "BB.Props.C13.commit_drops_delivered",
-                  "BB.Props.C13.closed_source_no_value", "BB.Props.C13.nothing_taken_after_close", "BB.Props.C13.after_close_errors"],
+                  "BB.Props.C13.closed_source_no_value", "BB.Props.C13.nothing_taken_after_close", "BB.Props.C13.after_close_errors",
+                  "BB.Props.C13.blocked_poll_is_noop", "BB.Props.C13.waiting_get_is_one_atomic_poll", "BB.Props.C13.waiting_get_sees_rollback"],
         corr=[dict(family="channel", quick=300, thorough=20000, mismatch_is_violation=True,
-                   nontrivial=has("rollback_after_partial_reread", "commit_partial_reread", "blocked_closed_src", "ctx_cancel", "get_after_srcclose"),
+                   nontrivial=has("rollback_after_partial_reread", "commit_partial_reread", "blocked_closed_src", "ctx_cancel", "get_after_srcclose",
+                                  "blocked_get_woken_by_rollback", "blocked_get_woken_by_send", "blocked_get_woken_by_close"),
                    rule="channel: generated send/Get/Commit/Rollback/Buffer/Close/cancel/close-source scripts on a real Channel over a buffered source "
                         "(an empty poll is detected through a verif hook, then the Get context is cancelled) vs the Lean model, with buffer length and "
                         "rollback count compared after every op and the source drained at the end; non-trivial = rollback/commit after a partial "
-                        "re-read, a poll of a closed source, a parent-context cancel, a Get after the source was closed")],
+                        "re-read, a poll of a closed source, a parent-context cancel, a Get after the source was closed; "
+                        "bget = a Get left polling on another goroutine while the following operations (send, Rollback, Commit, Close, cancel) run: after each of "
+                        "them the harness waits until the Get returned or two further empty polls were logged, and the model must agree (linearisation at the last poll)")],
         assumptions=["each Channel method body is one critical section of Channel.mutex (one model step)",
                      "reflect.Value.TryRecv is modelled as: head of the queue if non-empty, else not-ok (also for a closed channel)"],
     ),
